@@ -372,20 +372,13 @@ func (vfs *OrefaFS) Link(oldname, newname string) error {
 		return &os.LinkError{Op: op, Old: oldname, New: newname, Err: vfs.err.NotADirectory}
 	}
 
-	// A directory is locked before its entries, as a directory handle does when it lists them.
-	if nParent != oChild {
-		nParent.mu.Lock()
-		defer nParent.mu.Unlock()
+	// A directory can't be linked : this is decided before any other node is locked, oldname may be
+	// an ancestor of the directory of newname.
+	oChild.mu.RLock()
+	oIsDir := oChild.mode.IsDir()
+	oChild.mu.RUnlock()
 
-		if !nParent.mode.IsDir() {
-			return &os.LinkError{Op: op, Old: oldname, New: newname, Err: vfs.err.NotADirectory}
-		}
-	}
-
-	oChild.mu.Lock()
-	defer oChild.mu.Unlock()
-
-	if oChild.mode.IsDir() {
+	if oIsDir {
 		err := error(avfs.ErrOpNotPermitted)
 		if vfs.OSType() == avfs.OsWindows {
 			err = avfs.ErrWinAccessDenied
@@ -398,6 +391,17 @@ func (vfs *OrefaFS) Link(oldname, newname string) error {
 		// newname is below oldname, which is not a directory.
 		return &os.LinkError{Op: op, Old: oldname, New: newname, Err: vfs.err.NotADirectory}
 	}
+
+	// A directory is locked before its entries, as a directory handle does when it lists them.
+	nParent.mu.Lock()
+	defer nParent.mu.Unlock()
+
+	if !nParent.mode.IsDir() {
+		return &os.LinkError{Op: op, Old: oldname, New: newname, Err: vfs.err.NotADirectory}
+	}
+
+	oChild.mu.Lock()
+	defer oChild.mu.Unlock()
 
 	if nChildOk {
 		err := vfs.err.FileExists
